@@ -181,3 +181,33 @@ func callTarget(p *core.Prog, cc *ssa.CallCommon) *ssa.Function {
 	}
 	return nil
 }
+
+// insideLoop: block b executes as part of a loop iteration - it lies on a cycle, or (a block that leaves
+// the function from inside the body lies on no cycle) its nearest dominator on a cycle is a body block, or
+// is the loop header and b is reached through the header's edge into the body rather than its exit edge.
+func insideLoop(b *ssa.BasicBlock) bool {
+	if core.InLoop(b) {
+		return true
+	}
+	for d := b.Idom(); d != nil; d = d.Idom() {
+		if !core.InLoop(d) {
+			continue
+		}
+		isHeader := false
+		for _, pr := range d.Preds {
+			if d.Dominates(pr) {
+				isHeader = true
+			}
+		}
+		if !isHeader {
+			return true
+		}
+		for _, s := range d.Succs {
+			if core.InLoop(s) && (s == b || s.Dominates(b)) {
+				return true
+			}
+		}
+		return false
+	}
+	return false
+}
